@@ -597,6 +597,13 @@ func (v *VM) run() {
 						for i := spStart; i < v.sp; i++ {
 							args[i-spStart] = v.stack[i]
 						}
+						// the array of variadic arguments is an allocation
+						// like any other array
+						v.allocs--
+						if v.allocs == 0 {
+							v.err = ErrObjectAllocLimit
+							return
+						}
 						v.stack[spStart] = &Array{Value: args}
 						v.sp = spStart + 1
 					}
